@@ -96,6 +96,7 @@ func c20kindSev(kind string) Severity {
 
 type c20call struct {
 	producer, idx int
+	site          int // call site of the log call (lines from different call sites are not identical, whatever their text)
 	text          string
 	sev           Severity
 	tracer        bool
@@ -173,6 +174,9 @@ func c20emit(sev Severity, text string) {
 	}
 }
 
+// c20emitOtherSite logs an info line from a second call site in this file (another source line).
+func c20emitOtherSite(text string) { Info(text) }
+
 // c20viaTracer is the ONE call site shared by plain lines (nil tracer) and the main lines of tracer submissions.
 func c20viaTracer(tr *ContextTracer, text string) { tr.Warning(text) }
 
@@ -210,6 +214,11 @@ func c20produce(s *c20state, pi, li int, spec string) {
 		// a plain warning logged through the tracer API without a tracer: same call site as the main line of a submission
 		call.sev = WarningLevel
 		c20viaTracer(nil, text)
+	} else if parts[0] == "i2" {
+		// an info line from another source line of the same file
+		call.sev = InfoLevel
+		call.site = 1
+		c20emitOtherSite(text)
 	} else {
 		call.sev = c20sev(parts[0])
 		c20emit(call.sev, text)
@@ -421,16 +430,18 @@ func c20judge(p C20Params, s *c20state) {
 		text string
 		seq  int
 		sev  Severity
+		del  int // index of the delivery this item was expanded from
 	}
+	sitesOf := map[int]map[int]bool{} // delivery index -> call sites of the calls it stands for
 	perProducer := map[int][]item{}
-	for _, d := range s.delivered {
+	for di, d := range s.delivered {
 		var pi int
 		if _, err := fmt.Sscanf(d.text, "p%d-", &pi); err != nil {
 			c20fail("only-logged-lines-are-emitted", "unknown-line", "a line that nobody logged was handed to the adapter: %q\n%s", d.text, c20describe(s))
 			continue
 		}
 		for k := uint64(0); k <= d.dup; k++ {
-			perProducer[pi] = append(perProducer[pi], item{d.text, d.seq, d.sev})
+			perProducer[pi] = append(perProducer[pi], item{d.text, d.seq, d.sev, di})
 		}
 	}
 	for pi := range p.Producers {
@@ -458,6 +469,10 @@ func c20judge(p C20Params, s *c20state) {
 				gi++
 			case present:
 				// delivered: in order, once, with the severity it was logged with
+				if sitesOf[got[gi].del] == nil {
+					sitesOf[got[gi].del] = map[int]bool{}
+				}
+				sitesOf[got[gi].del][c.site] = true
 				if got[gi].sev != c.sev {
 					c20fail("line-keeps-its-severity", "other-severity", "line %q was logged with severity %d and handed to the adapter with severity %d\n%s", c.text, c.sev, got[gi].sev, c20describe(s))
 				}
@@ -485,6 +500,13 @@ func c20judge(p C20Params, s *c20state) {
 		}
 		if gi < len(got) {
 			c20fail("enabled-line-is-emitted-exactly-once", "duplicated-or-reordered", "producer %d: unexpected extra/reordered line %q handed to the adapter\n%s", pi, got[gi].text, c20describe(s))
+		}
+	}
+	// only identical lines are merged: a line handed over with a repetition count stands for calls from one call site
+	// (the adapter sees file and line number of the first one only)
+	for di, sites := range sitesOf {
+		if len(sites) > 1 {
+			c20fail("only-identical-lines-are-merged", "different-call-sites", "line %q reached the adapter once with %d repetition(s), standing for calls from %d different source lines\n%s", s.delivered[di].text, s.delivered[di].dup, len(sites), c20describe(s))
 		}
 	}
 	// tracer submissions carry all their collected lines, and are never merged with plain lines of the same text
